@@ -43,6 +43,8 @@ def hashseeds(tier):
 def generate(tier, seed, work, stats):
     cases = c02.pair_cases(tier, seed, work, stats, families(tier))
     cases += c02.random_pairs(1000 if tier == "quick" else 30000, seed + 3)
+    for c in c02.random_pairs(1500 if tier == "quick" else 30000, seed + 33):       # names that contain the library's separators
+        cases.append(dict(c, spool="merged", family="random-merged-names"))
     # P3: the calls the repository's own tests make, re-judged by the trace specification
     cases += [c for c in core.record_tests(["/repo/pyformlang"], work, {"get_intersection", "get_complement", "get_difference", "reverse", "union", "concatenate", "kleene_star"}, stats) if "A" in c["recorded"][0]]
     return cases
